@@ -251,6 +251,7 @@ func c13sRun(c *hx.Ctx, cs c13sCase) error {
 	committed := map[int]map[int]string{} // height -> key -> balance string
 	cur := map[int]string{}
 	height := 0
+	maxHeight := 0 // the highest height ever committed: version v-keep is pruned at commit v and a rollback brings nothing back
 	justRolled := false
 	// a read-only view of a retained height, compared with what was committed at that height
 	readRetained := func(h int) {
@@ -340,6 +341,9 @@ func c13sRun(c *hx.Ctx, cs c13sCase) error {
 			return nil
 		}
 		height++
+		if height > maxHeight {
+			maxHeight = height
+		}
 		c.Line("commit", fmt.Sprintf("ver %d", app.State.Version()))
 		snap := map[int]string{}
 		for k, v := range cur {
@@ -412,7 +416,7 @@ func c13sRun(c *hx.Ctx, cs c13sCase) error {
 				view, err := app.ForCheck(uint64(h))
 				if err != nil {
 					c.Line(fmt.Sprintf("view %d", h), "nover")
-					if _, ok := committed[h]; ok && h > height-keep {
+					if _, ok := committed[h]; ok && h > maxHeight-keep {
 						fail("C13:retained-version-not-loadable", fmt.Sprintf("ForCheck(%d) at height %d: %v", h, height, err))
 					}
 				} else {
@@ -459,7 +463,7 @@ func c13sRun(c *hx.Ctx, cs c13sCase) error {
 				continue
 			}
 			k := c13sKey(r, nKeys)
-			if h <= height-keep {
+			if h <= maxHeight-keep {
 				// a pruned height: the property makes no claim (observed only: AppState.Readonly keeps the last requested
 				// height in a cache that is not dropped when that version is pruned, so this may error, panic or read stale nodes)
 				func() {
